@@ -167,6 +167,25 @@ class Interp:
         node = self.mod.find(qual)
         return IFunc(self, node, None, qual, bound_self)
 
+    def block_function(self, qual, first, last, params, result):
+        """mechanical extraction of a contiguous statement block of function `qual`: the top-level statements from the first one matching
+        `first(stmt_source)` to the first later one matching `last(stmt_source)` (inclusive) become the body of a function whose parameters
+        are the block's free variables `params`; it returns the tuple of the variables named in `result`.  Everything before and after the
+        block is DROPPED from the verified text (the contract's requires stand for the dropped prefix and are monitored at run time)."""
+        node = self.mod.find(qual)
+        body = node.body
+        i0 = next((i for i, s in enumerate(body) if first(ast.unparse(s))), None)
+        i1 = next((i for i, s in enumerate(body) if i0 is not None and i >= i0 and last(ast.unparse(s))), None)
+        if i0 is None or i1 is None:
+            raise Unsupported(f"block of {qual} not found")
+        stmts = list(body[i0:i1 + 1])
+        ret = ast.Return(value=ast.Tuple(elts=[ast.Name(id=r, ctx=ast.Load()) for r in result], ctx=ast.Load()))
+        fn = ast.FunctionDef(name=f"{node.name}__block_{body[i0].lineno}_{body[i1].end_lineno}", args=ast.arguments(posonlyargs=[], args=[ast.arg(arg=p) for p in params], vararg=None,
+                             kwonlyargs=[], kw_defaults=[], kwarg=None, defaults=[]), body=stmts + [ret], decorator_list=[], returns=None, type_comment=None, lineno=body[i0].lineno, col_offset=0)
+        ast.fix_missing_locations(fn)
+        self.block_lines = (body[i0].lineno, body[i1].end_lineno)
+        return IFunc(self, fn, None, f"{qual}[lines {body[i0].lineno}-{body[i1].end_lineno}]")
+
     def call(self, f, args, kwargs):
         c = ctx()
         c.fuel -= 1
